@@ -216,6 +216,11 @@ def buildStep (b : Board) : BuildOp → Board × Bool
     | some (c, p) => ({ b with zobrist := b.zobrist ^^^ Lookup.zobristPiece s p c, raw := b.raw.remove c p s }, true)
     | none => (b, true)
 
+/-- a whole builder session: the calls in order from `Board::builder()`; the flags say which calls were accepted
+(`place` returns `Err(PieceAlreadyExists)` on an occupied square) -/
+def runBuild (ops : List BuildOp) : Board × List Bool :=
+  ops.foldl (fun st op => let r := buildStep st.1 op; (r.1, st.2 ++ [r.2])) (Board.builderInit, [])
+
 /-- `BoardBuilder::build` -/
 def build (b : Board) : Except Board.ValidationError Board :=
   match b.validate with
